@@ -74,6 +74,12 @@ struct TLess {
     ++CmpCounter::calls();
     return key(a) < key(b);
   }
+  // a heterogeneous key that is coarser than the elements: a bucket of 4 consecutive values matches a whole run
+  struct Bucket {
+    int b;
+  };
+  bool operator()(const E &a, const Bucket &k) const { return val_of(a) / 4 < k.b; }
+  bool operator()(const Bucket &k, const E &a) const { return k.b < val_of(a) / 4; }
 };
 
 // traits: how to build a comparator from a tape byte and how to model it
